@@ -110,7 +110,7 @@ def run(ctx):
         ctx.oblige(TRD, True)
     except Exception as ex:
         ctx.oblige(TRD, False, repr(ex))
-    DT = ["Sympler.Disp.C02_disp_tracks_position", "Sympler.Disp.C02_disp_position_is_vv", "Sympler.Disp.C02_disp_accumulates"]
+    DT = ["Sympler.Disp.C02_disp_tracks_position", "Sympler.Disp.C02_disp_position_is_vv", "Sympler.Disp.C02_disp_accumulates", "Sympler.Disp.C02_scan_reads_displacement_since_rebuild"]
     lean_ok = common.lean_obligations(ctx, ["Sympler.Verlet", "Props.C02", "PropsR.C02", "Props.PairLists", "Props.C02Disp", "symdrv"], ["Props.C02", "PropsR.C02", "Props.PairLists", "Props.C02Disp"],
                                       THEOREMS + THEOREMS_R + dyngen.PL + DT, MODULES + ["Sympler.Gen.PairListsGen", "Props.PairLists", "Sympler.Gen.DispGen", "Props.C02Disp"])
     nA, nB = (50, 12) if not ctx.thorough else (800, 200)
@@ -144,7 +144,7 @@ def run(ctx):
         failing = [o[0] for o in ctx.obligations if not o[1]]
         if not errs and ok:
             # violation search: head-on approaches from outside the list cutoff, both storage orders (the quantifier text of C02)
-            jobs = [(10000 + i, ctx.seed, "A", base, "headon") for i in range(300)]
+            jobs = [(10000 + i, ctx.seed, "A", base, "headon") for i in range(300)] + [(20000 + i, ctx.seed, "A", base, "headon-every1") for i in range(150)]
             with ThreadPoolExecutor(max_workers=8) as ex:
                 extra = list(ex.map(one_case, jobs))
             shutil.rmtree(base, ignore_errors=True)
